@@ -189,9 +189,10 @@ func CheckC16(r *Report) {
 	ver := spec.V4
 	thorough := r.Tier == "thorough"
 	r.Rule = "E2 objspace (odometer): Nomenclature() on (a) every subset of defined optional metrics (2^21) x value rotations x base backgrounds, (b) in thorough the full product of all 15 threat+environmental metrics (1,179,648,000 assignments) x 3 backgrounds of base+supplemental metrics, (c) every single supplemental/base value over all 2^15 threat/environmental presence patterns; oracle: CVSS-B + T iff E defined + E iff any of CR..MSA defined; distinct = distinct assignments"
-	var n, nontriv atomic.Int64
+	var n Counter
+	var nontriv atomic.Int64
 	fn := func(idx int, a spec.Assignment, o *gocvss40.CVSS40) {
-		n.Add(1)
+		n.Add(idx, 1)
 		if k, e, ob := nomCheck(a, o); k != "" {
 			ac := a.Clone()
 			r.Violation(Case{Kind: "nomenclature", Key: k, Expected: e, Observed: ob + " on " + o.Vector(), Args: map[string]any{"vector": ver.Full(a)}},
